@@ -4,7 +4,7 @@
    g = true  : the readers with notes/findings/C05-ebp.patch (a length test before every optional field).
    Getters and Data() of a returned object are total Gallina functions without a Res type: in the model they cannot panic
    (they index nothing: every getter reads struct fields; Data() only appends). *)
-From Gots Require Import Base.Prelude Model.Ebp Proofs.EbpTotal.
+From Gots Require Import Base.Prelude Model.Ebp Proofs.EbpTotal Proofs.EbpBounds.
 Import Ebp.
 
 (* termination, patched or not: the repaired grouping loop's uint8 index strictly increases up to 0xFF *)
@@ -54,3 +54,16 @@ Theorem C05_read_ebp_index_wrap :
   /\ ReadEncoderBoundaryPoint true index_wrap = Err E.InvalidEBPLength.
 Proof. exact index_wrap_witness. Qed.
 Print Assumptions C05_read_ebp_index_wrap.
+
+(* bounded memory: whatever the input (and whichever reader variant), a returned object holds at most 256 grouping ids
+   (the uint8 loop index bounds the chain) and its reserved bytes are a sub-slice of the input; re-encoding it yields at most
+   18 + ids + reserved bytes *)
+Theorem C05_read_ebp_bounded : forall (g : bool) (bs : bytes) (f : flavour) (e : t),
+  ReadEncoderBoundaryPoint g bs = Ok (f, e) -> len (Grouping e) <= 256 /\ len (ReservedBytes e) <= len bs.
+Proof. exact read_ebp_bounded. Qed.
+Print Assumptions C05_read_ebp_bounded.
+
+Theorem C05_ebp_data_bounded : forall (f : flavour) (e : t),
+  len (fst (Data f e)) <= 18 + len (Grouping e) + len (ReservedBytes e).
+Proof. exact data_bounded. Qed.
+Print Assumptions C05_ebp_data_bounded.
